@@ -25,15 +25,15 @@ FILE_CHANNELS = ["json", "json_vu", "csv_dir", "csv_tuple", "xlsx"]
 MEM_CHANNELS = ["dict", "model", "vu_dict", "from_json"]
 FORBIDDEN = set("[]:*?/\\")
 UNITS = dict(t_supply="degC", t_target="degC", heat_flow="kW", dt_cont="degC", htc="kW/m^2/degC", price="$/MWh")
-SAFE_NAMES = ["H1", "C 2", "Feed-pre", "Reboiler (A)", "Stream_7", "Cond, top", "Wasseré", "x&y", "BFW", 'He said "hi"', "O'Brien feed", "semi;colon"]
-SAFE_ZONES = ["Plant", "Area 1", "Unit-A", "North", "Dairy (2)", "B_2"]
+SAFE_NAMES = ["Stream", "Utility", "H1", "C 2", "Feed-pre", "Reboiler (A)", "Stream_7", "Cond, top", "Wasseré", "x&y", "BFW", 'He said "hi"', "O'Brien feed", "semi;colon"]
+SAFE_ZONES = ["Process Zone", "Plant", "Area 1", "Unit-A", "North", "Dairy (2)", "B_2"]
 HOSTILE_ZONES = [
     "Zone[1]", "a:b", "what?", "star*", "back\\slash", "'quoted'", "x" * 40, "Very long zone name that exceeds the limit", "Very long zone name that exceeds the limIT",
     "Very long zone name that exceeds the limit!", "Überhitzer – Stufe 2", "tab\tname", "Sheet", "  padded  ", "UPPER", "upper", "a/b:c", "History",
     "what*", "what_", "star?", "a:b?", "a_b_", "'", "''", "?", "x" * 30 + "'", "[]", "Summary",
 ]
 LONG_FAMILY = [f"Evaporation and stripping plant - line {i}" for i in range(1, 9)]
-STEMS = ["case", "run A", "plant_2024", "x-y", "Projekt ä", "p (1)"]
+STEMS = ["case", "run A", "plant_2024", "x-y", "Projekt ä", "p (1)", "case.v2", "Plant.2024.rev3"]
 HOSTILE_STEMS = ["a[b]", "q?", "x:y", "'q'", "a very long project name over thirty-one chars", "st*r", "CASE"]
 
 
@@ -98,19 +98,34 @@ def _cell(x, ints):
     return x
 
 
-def write_csv(dirpath, prob, keep=None, names=("streams.csv", "utilities.csv"), units=True, ints=False):
+def write_csv(dirpath, prob, keep=None, names=("streams.csv", "utilities.csv"), units=True, ints=False, bom=False, extra=False):
     os.makedirs(dirpath, exist_ok=True)
     for fname, head, rows in ((names[0], S_HEAD, stream_rows(prob, keep)), (names[1], U_HEAD, utility_rows(prob))):
-        with open(os.path.join(dirpath, fname), "w", newline="", encoding="utf-8") as f:
+        with open(os.path.join(dirpath, fname), "w", newline="", encoding="utf-8-sig" if bom else "utf-8") as f:
             w = csv.writer(f)
             w.writerow(head[0])
             w.writerow(head[1] if units else [""] * len(head[1]))
             for r in rows:
                 w.writerow(["" if x is None else (repr(_cell(x, ints)) if isinstance(x, float) else x) for x in r])
+            if extra:
+                f.write("\r\n\r\n")  # trailing empty lines (comma-only rows are NOT written: the CSV reader, unlike the workbook reader, does not promise to skip nameless rows)
+    if extra:
+        # other files lying around in the bundle directory (an older export, notes): not part of the bundle
+        with open(os.path.join(dirpath, "a_old_streams.csv"), "w", newline="", encoding="utf-8") as f:
+            w = csv.writer(f)
+            w.writerow(S_HEAD[0])
+            w.writerow(S_HEAD[1])
+            w.writerow(["Old zone", "Old stream", "300.0", "40.0", "1234.5", "10.0", "1.0"])
+        with open(os.path.join(dirpath, "a_old_utilities.csv"), "w", newline="", encoding="utf-8") as f:
+            w = csv.writer(f)
+            w.writerow(U_HEAD[0])
+            w.writerow(U_HEAD[1])
+        with open(os.path.join(dirpath, "notes.txt"), "w") as f:
+            f.write("exported by the simulated producer\n")
     return os.path.join(dirpath, names[0]), os.path.join(dirpath, names[1])
 
 
-def write_xlsx(path, prob, keep=None, units=True, ints=False):
+def write_xlsx(path, prob, keep=None, units=True, ints=False, extra=False):
     import openpyxl
 
     wb = openpyxl.Workbook()
@@ -125,6 +140,21 @@ def write_xlsx(path, prob, keep=None, units=True, ints=False):
     wu.append([(x or None) if units else None for x in U_HEAD[1]])
     for r in utility_rows(prob):
         wu.append([_cell(x, ints) for x in r])
+    if extra:
+        # what the shipped template looks like: blank rows under the data, and the optional loc / index columns
+        for _ in range(2):
+            ws.append([None] * 7)
+            wu.append([None] * 7)
+        ws.cell(row=1, column=8, value="Loc")
+        ws.cell(row=1, column=9, value="Index")
+        for i in range(len(stream_rows(prob, keep))):
+            ws.cell(row=3 + i, column=8, value=0)
+            ws.cell(row=3 + i, column=9, value=i)
+    if extra and not prob.get("options"):
+        wo = wb.create_sheet("Options")  # the template's Options sheet with every value left blank
+        wo.append(["### General parameters ###", "Value (blank = default value)"])
+        for k in ("DT_CONT", "DT_PHASE_CHANGE", "HTC", "### Targeting analysis flags ###", "DO_BALANCED_CC"):
+            wo.append([k, None])
     if prob.get("options"):
         wo = wb.create_sheet("Options")
         wo.append(["### Options ###", "Value (blank = default value)"])
@@ -280,6 +310,11 @@ class C16(World):
         for k in range(swarm["n_problems"]):
             p = problems.generate(pr, small=True)
             p.pop("zone_tree", None)
+            if pr.random() < 0.2:
+                # duties of another order of magnitude (W-scale or GW-scale numbers), still <= 6 decimals
+                f = pr.choice([0.001, 1000.0, 250.0])
+                for rec in p["streams"]:
+                    rec["heat_flow"] = round(rec["heat_flow"] * f, 6)
             if pr.random() < 0.15:
                 # a sub-ambient problem: every temperature shifted below zero
                 shift = float(pr.choice([150, 250, 420]))
@@ -309,6 +344,8 @@ class C16(World):
                     zmap[z] = "/".join(pr.choice(zpool).replace("/", "_") if hostile else pr.choice(zpool) for _ in parts) if len(parts) > 1 else pr.choice(zpool)
                 s["zone"] = zmap[z]
                 s["name"] = pr.choice(SAFE_NAMES) + (f" {pr.randrange(9)}" if pr.random() < 0.5 else "")
+            if pr.random() < 0.12 and p["streams"]:
+                p["streams"].insert(pr.randrange(len(p["streams"]) + 1), dict(p["streams"][pr.randrange(len(p["streams"]))]))  # two identical parallel units
             for u in p["utilities"]:
                 u["active"] = True
                 u["heat_flow"] = None
@@ -337,7 +374,7 @@ class C16(World):
                 st = dict(op="load", w=args.randrange(nw), p=p, ch=ch, stem=args.choice(STEMS))
                 if swarm["same_path"] and args.random() < 0.8:
                     st["same_path"] = True
-                st["style"] = dict(units=args.random() < 0.8, ints=args.random() < 0.4)
+                st["style"] = dict(units=args.random() < 0.8, ints=args.random() < 0.4, bom=args.random() < 0.25, extra=args.random() < 0.3)
                 if args.random() < 0.25:
                     st["stem"] = args.choice(HOSTILE_STEMS)  # used only when the problem itself is hostile (JSON channel)
                 if fault:
@@ -527,7 +564,7 @@ class C16(World):
                         ch = "json"  # hostile names only through dict/JSON/model channels
                     if stem in HOSTILE_STEMS and not (prob["hostile"] and ch in ("json", "json_vu")):
                         stem = "case"
-                    style = dict(st.get("style") or dict(units=True, ints=False))
+                    style = dict(dict(units=True, ints=False, bom=False, extra=False), **(st.get("style") or {}))
                     if has_blanks(prob["data"]):
                         style["units"] = True  # a blank cell only means "default" in a unit-bearing column
                     no_options = ch in ("csv_dir", "csv_tuple") and prob["options"]
@@ -542,12 +579,12 @@ class C16(World):
                         exact = True
                     elif ch == "csv_dir":
                         src = os.path.join(d, stem)
-                        write_csv(src, data, keep, **style)
+                        write_csv(src, data, keep, **{k_: v_ for k_, v_ in style.items() if k_ != "x"})
                     elif ch == "csv_tuple":
                         src = write_csv(os.path.join(d, stem), data, keep, names=("s_" + stem + ".csv", "u_" + stem + ".csv"), **style)
                     elif ch == "xlsx":
                         src = os.path.join(d, stem + ".xlsx")
-                        write_xlsx(src, data, keep, units=True, ints=style["ints"])  # the workbook template always carries its units row
+                        write_xlsx(src, data, keep, units=True, ints=style["ints"], extra=style["extra"])  # the workbook template always carries its units row
                     if not style["units"] and ch in ("csv_dir", "csv_tuple"):
                         probe("file_without_units_row")
                     if has_blanks(data) and ch in ("csv_dir", "csv_tuple", "xlsx"):
@@ -728,7 +765,7 @@ class C16(World):
                         new = (set(os.listdir(out_dir)) - before) if os.path.isdir(out_dir) else set()
                         if not new:
                             probe("export_same_second_overwrite")
-                        self._check_workbook(path, step, V, tick, probe, m["ch"])
+                        self._check_workbook(path, step, V, tick, probe, m["ch"], w.results, w.master_zone)
                         outcome = "ok:" + os.path.basename(path)
                     else:
                         outcome = "raise:" + type(val).__name__
@@ -787,7 +824,7 @@ class C16(World):
                             if len(files) != 1:
                                 V("ctor_exports", f"ctor_{ch}", step, f"run=True with a results directory wrote {len(files)} files")
                             else:
-                                self._check_workbook(os.path.join(out_dir, files[0]), step, V, tick, probe, "ctor_" + ch)
+                                self._check_workbook(os.path.join(out_dir, files[0]), step, V, tick, probe, "ctor_" + ch, val, holder["w"].master_zone)
                         probe("ctor_run_" + ch)
                         outcome = "ok"
                     else:
@@ -830,13 +867,42 @@ class C16(World):
         if any(n.startswith("'") or n.endswith("'") for n in names):
             probe("sheet_name_edge_apostrophe")
 
-    def _check_workbook(self, path, step, V, tick, probe, ch):
+    @staticmethod
+    def _count_tables(zone, depth=0):
+        """Number of non-empty shifted/real problem tables hanging off an analysed zone tree."""
+        if zone is None or depth > 12:
+            return 0
+        n = 0
+        for t in (getattr(zone, "targets", {}) or {}).values():
+            for attr in ("pt", "pt_real"):
+                data = getattr(getattr(t, attr, None), "data", None)
+                if data is not None and getattr(data, "size", 0) > 0:
+                    n += 1
+        for z in (getattr(zone, "subzones", {}) or {}).values():
+            n += C16._count_tables(z, depth + 1)
+        return n
+
+    def _check_workbook(self, path, step, V, tick, probe, ch, result=None, master_zone=None):
         import openpyxl
+
+        expected_tables = self._count_tables(master_zone) if master_zone is not None else None
 
         try:
             wb = openpyxl.load_workbook(path, read_only=True)
             names = list(wb.sheetnames)
+            summary = None
+            if result is not None and "Summary" in names:
+                summary = [row[0] for row in wb["Summary"].iter_rows(min_row=2, max_col=1, values_only=True)]
             wb.close()
+            if expected_tables is not None:
+                tick("sheet_count")
+                if len(names) != 1 + expected_tables:
+                    V("sheet_names", f"export|sheet_count", step, f"workbook holds {len(names)} sheets but the analysed zone tree has {expected_tables} non-empty problem tables (+ Summary): a table was dropped or overwritten")
+            if summary is not None:
+                tick("export_matches_result")
+                want = [t.name for t in result.targets]
+                if [x for x in summary if x is not None] != want:
+                    V("export_matches_result", f"{ch}|summary_rows", step, f"exported Summary lists {summary[:4]}… but the wrapper's result holds {want[:4]}…")
         except Exception as e:
             V("sheet_names", f"export|unreadable|{type(e).__name__}", step, f"exported workbook cannot be re-opened: {e}")
             return
